@@ -822,6 +822,27 @@ def _cmp_guards(f):
     return out
 
 
+def _under_true_edge_of(callee_re):
+    def pred(crate, f, bb):
+        from .r8 import _switch_after_call
+        dom = f.dominators()
+        for b2, c in f.calls():
+            if not re.search(callee_re, c.get("res") or c.get("fn") or ""):
+                continue
+            sw = _switch_after_call(f, b2)
+            if sw and sw[1] in dom.get(bb, set()):
+                return True
+        return False
+    return pred
+
+
+# reviewed R7d arguments that rest on a guard: (what the guard is, the test that it still dominates the site)
+R7D_RESTS_ON = {
+    "R7d|providers::code_action::<impl providers::Backend>::handle_code_action::{closure#0}|`func_line_content`":
+        ("a dominating `contains(..)` test", _under_true_edge_of(r"str>?::contains")),
+}
+
+
 def r7_range_order(ctx):
     r = Result("R7d", "every two-sided `str` range `s[a..b]` is proven to have a <= b: a is 0, b is `a + x` (unsigned), or a comparison "
                       "`x < b` / `x <= b` (a = x or x + 1) dominates the site on its true edge (or the negation on its false edge); "
@@ -865,6 +886,9 @@ def r7_range_order(ctx):
                         continue
                     if ks == lo or (strict and ks in (("Add", lo, one), ("Add", one, lo))):
                         why = "guarded by a dominating comparison of start and end"
+        if why is None and key in R7D_RESTS_ON and not R7D_RESTS_ON[key][1](crate, f, s.bb):
+            # the reviewed argument names a guard; without the guard the argument is void and the site is a new one
+            key += "|without " + R7D_RESTS_ON[key][0]
         if why:
             r.ok(sample={"site": crate.span_str(s.c["span"]), "string": sname, "start<=end": why})
         else:
